@@ -3,8 +3,9 @@ import CentrifugeVerif.Gen.RedisPushFmt
 /-!
 # Model of the Redis PUB/SUB payload framing (C33)
 
-Go side, mirrored line by line (`/repo/broker_redis.go`, including the bounds checks of commit
-e8dc9ebe "fix: decoding a malformed Redis PUB/SUB payload no longer panics"):
+Go side, mirrored line by line (`/repo/broker_redis.go`, including the bounds checks of commits
+e8dc9ebe "fix: decoding a malformed Redis PUB/SUB payload no longer panics" and efc5e395
+"fix: overflow-free length guard in parseDeltaPush"):
 * `extractPushData(data []byte)`  →  `extractPushData`
 * `parseDeltaPush(input string)`   →  `parseDeltaPush` (= `deltaHead` then `deltaBody`)
 * `strconv.ParseUint(s, 10, 64)`   →  `parseUint`,  `strconv.Atoi` → `atoi`
@@ -12,13 +13,12 @@ e8dc9ebe "fix: decoding a malformed Redis PUB/SUB payload no longer panics"):
 Go slice expressions whose bounds come from *declared* lengths (`input[:prevPayloadLength]`,
 `input[prevPayloadLength+1:]`, `input[:payloadLength]`, `stringHeader[3:]`) are modelled with
 `sliceTo` / `sliceFrom`, which yield the explicit outcome `Outcome.panic` when Go would raise a
-slice-bounds run-time panic — where the guards in front of them exclude this outcome is a theorem
-(`Props/C33.lean`), not a modelling decision.  `prevPayloadLength+1` is Go `int` arithmetic and
-wraps around at MaxInt64 (`goAdd1`).  Slices whose bounds come from a
+slice-bounds run-time panic — that the guards in front of them exclude this outcome is a theorem
+(`Props/C33.lean: extract_total`), not a modelling decision.  Slices whose bounds come from a
 preceding `IndexByte`/`Index` (`input[:idx]`, `input[idx+1:]`, `data[2+pos+2:]`) are always in
 range and are modelled by `take`/`drop`.
 
-The functions with suffix `Pre` are the code as it was *before* that commit (no guards); they are
+The functions with suffix `Pre` are the code as it was *before* those commits (no guards); they are
 kept to state exactly which inputs used to panic and that the fix changed nothing else.
 
 Lua side: the framing expressions are the generated piece lists of `Gen/RedisPushFmt.lean`,
@@ -301,7 +301,7 @@ def panicClass (data : Bytes) : Option PanicKind :=
       else if ct = 100 then deltaPanicClass (ct :: tl)
       else none
 
-/-! ## The current code (with the bounds checks of e8dc9ebe) -/
+/-! ## The current code (with the bounds checks of e8dc9ebe and efc5e395) -/
 
 def deltaTail (h : DeltaHead) (prev input : Bytes) : Outcome (Except DErr DeltaPush) :=
   match splitColon input with
@@ -317,21 +317,14 @@ def deltaTail (h : DeltaHead) (prev input : Bytes) : Outcome (Except DErr DeltaP
         .val (.ok { offset := h.offset, epoch := h.epoch, prevLen := h.prevLen, prev := prev,
                     payloadLen := l, payload := payload })
 
-def maxInt64 : Int := 9223372036854775807
-def minInt64 : Int := -9223372036854775808
-
-/-- Go `x + 1` on `int` (64 bit): wraps around at `MaxInt64` (for `x` in the `int` range, which is
-what `Atoi` returns). -/
-def goAdd1 (x : Int) : Int := if x = maxInt64 then minInt64 else x + 1
-
 def deltaBody (h : DeltaHead) : Outcome (Except DErr DeltaPush) :=
-  -- `if prevPayloadLength < 0 || len(input) < prevPayloadLength+1 { return error }`
-  -- NB `prevPayloadLength+1` is Go `int` arithmetic: for MaxInt64 it wraps to MinInt64, the guard
-  -- is then false and the slice below is out of range (finding C33-6).
-  if h.prevLen < 0 ∨ (h.rest.length : Int) < goAdd1 h.prevLen then .val (.error .shortPrev)
+  -- `if prevPayloadLength < 0 || len(input) <= prevPayloadLength { return error }`  (efc5e395)
+  if h.prevLen < 0 ∨ (h.rest.length : Int) ≤ h.prevLen then .val (.error .shortPrev)
   else
     (sliceTo h.rest h.prevLen).bind fun prev =>          -- prevPayload := input[:prevPayloadLength]
-    (sliceFrom h.rest (goAdd1 h.prevLen)).bind fun input => -- input = input[prevPayloadLength+1:]
+    -- input = input[prevPayloadLength+1:]; behind the guard prevPayloadLength < len(input) ≤ MaxInt64,
+    -- so Go's `int` addition cannot wrap here
+    (sliceFrom h.rest (h.prevLen + 1)).bind fun input =>
     deltaTail h prev input
 
 def parseDeltaPush (input : Bytes) : Outcome (Except DErr DeltaPush) :=
@@ -377,20 +370,6 @@ def extractPushData (data : Bytes) : Outcome Push :=
       else if ct = 112 then extractPositioned data content
       else if ct = 100 then extractDelta content
       else .val (failWith [])
-
-/-- The inputs on which the *current* code still panics: a delta header whose declared
-prev-payload length is exactly MaxInt64 (`prevPayloadLength+1` overflows in the guard). -/
-def overflowClass (data : Bytes) : Bool :=
-  if data.take 2 ≠ [95, 95] then false
-  else
-    match data.drop 2 with
-    | [] => false
-    | ct :: tl =>
-      if ct = 100 then
-        match deltaHead (ct :: tl) with
-        | .ok h => h.prevLen == maxInt64
-        | .error _ => false
-      else false
 
 /-! ## Builders (Lua side) -/
 
